@@ -113,3 +113,21 @@ Example ex_matcher_hyps : matcher_hyps_okb (i_rule (ex_inp false)) ex_host_h (i_
 Proof. vm_compute. repeat split. Qed.
 Example ex_capstone_matcher : instance_of ex_host_h ex_rc_h ex_T_h'.
 Proof. apply (its_list_sound_matcher (ex_inp false) ex_rc_h _ _ [ex_T_h'] eq_refl (proj1 ex_matcher_hyps) eq_refl). left. reflexivity. Qed.
+
+(** the default mode end to end from the template (proof/C03_LinkDefault.v): hypotheses on ex_tpl_x, the substrate and the
+    matcher's contract only *)
+From SK Require Import proof.C03_LinkDefault.
+Example ex_default_end_to_end_hyps :
+  wf_rcb ex_tpl_x = true /\ edges_closedb ex_tpl_x = true /\ wf_hostb ex_host_h = true /\
+  forallb (call_okm ex_host_h ex_l_s) (i_calls ex_inp_d) = true /\
+  left_of_rcb ex_rc_s ex_l_s = true /\ edges_closedb ex_rc_s = true /\ wf_rcb ex_rc_s = true.
+Proof. vm_compute. repeat split. Qed.
+Example ex_default_end_to_end : forall gs g, spec_its ex_inp_d = Some gs -> In g gs ->
+  instance_of ex_host_h ex_rc_s g /\ total_charge (fst (its_decompose g)) = total_charge (snd (its_decompose g)).
+Proof.
+  intros gs g Hs Ig.
+  assert (Hel : forall k a, In (k, a) (gnodes ex_tpl_x) -> a_el (iH a) = a_el (iG a)).
+  { intros k a I. simpl in I. destruct I as [I|[I|[I|[]]]]; inversion I; reflexivity. }
+  destruct (its_list_default_end_to_end ex_inp_d ex_tpl_x ex_rc_s ex_l_s ex_r_s gs eq_refl (proj1 ex_default_mode_hyps) Hel
+              eq_refl eq_refl ex_tpl_condition eq_refl eq_refl Hs g Ig) as (A & _ & B). auto.
+Qed.
